@@ -160,7 +160,10 @@ pub fn check_route(case: &RouteCase) -> Result<CaseInfo, String> {
         }
         (a, b) => return Err(format!("runs differ fundamentally: original-only {a:?}, routed {b:?}")),
     };
-    if a != b {
+    // without the std feature a mock-induced panic through the original disables its verification
+    // (documented): then only the call outcomes are comparable
+    let verdict_comparable = cfg!(feature = "std") || !a.0.contains(&ObsKind::MockPanic);
+    if a.0 != b.0 || (verdict_comparable && a.1 != b.1) {
         return Err(format!(
             "routing calls through clones changed the behaviour: original-only {a:?}, routed {b:?}"
         ));
@@ -274,7 +277,7 @@ pub fn run(ctx: &Ctx) -> Verdict {
     v.explanation = "Relation between two real runs: per-call outcomes (value or panic class) and the verification message as a sorted multiset of lines must be identical.".into();
     v.assumptions = vec!["DynClause hook assembles the clause list".into()];
     v.subs.push(super::replay_corpus(ctx));
-    let n = ctx.tier.pick(25_000, 500_000);
+    let n = ctx.tier.pick(60_000, 1_500_000);
     let perm = (gen::scenario(cfg()), vec(any::<u8>(), 10)).prop_map(|(base, keys)| PermCase { base, keys });
     v.subs.push(vcore::run_proptest(ctx, "permute", n, perm, check_perm));
     let route = (gen::scenario(cfg()), 1..=3u8, vec(any::<u8>(), 24))
@@ -295,6 +298,7 @@ pub fn run(ctx: &Ctx) -> Verdict {
     v.subs.push(vcore::run_proptest(ctx, "twin", n, twin, check_twin));
     v.subs
         .push(vcore::run_proptest(ctx, "generic", n, gen::scenario(generic_cfg()), check_generic));
+    v.subs.extend(super::variant_reports(ctx, &["nostd-spin"]));
     v
 }
 
